@@ -158,6 +158,11 @@ theorem effective_price_without_base_fee (t : EthTx) (hn : t.normal = true) (p :
       simp [PTx.effectiveGasPriceO, EthTx.gasPriceField, asEth]
     · simp at h
 
+/-- with the repair every message has an effective price, with or without a base fee (the driver's reading of the figure
+    never falls back on a default) -/
+theorem effective_price_total (p : PTx) (b : Option Nat) : (p.effectiveGasPriceO true b).isSome = true := by
+  cases b <;> simp [PTx.effectiveGasPriceO] <;> split <;> rfl
+
 /-- before the repair: a dynamic-fee message (tip 2, cap 10) had no effective price without a base fee — the computation
     dereferenced the missing value — where go-ethereum says 10 -/
 theorem effective_price_nil_base_counterexample :
